@@ -433,17 +433,17 @@ def run(tier):
             return fn
         gens = _parallel([gen_job(p, d, r) for p, d, r, _ in conf["gen"]], 2)
         traces = []
-        for (prof, depth, rich, stride), g in zip(conf["gen"], gens):
+        for gk, ((prof, depth, rich, stride), g) in enumerate(zip(conf["gen"], gens)):
             behs = vf.dedup_behaviours(g.traces)
             if stride > 1:
                 off = seed % stride
                 behs = [b for i, b in enumerate(behs) if i % stride == off]
             cov["gen"].append({"profile": prof, "depth": depth, "alphabet_richness": list(rich), "transitions": len(g.traces),
                                "behaviours_replayed": len(behs), "stride": stride})
-            bf = os.path.join(work, "beh-%s.json" % prof)
+            bf = os.path.join(work, "beh-%s-%d.json" % (prof, gk))
             with open(bf, "w") as f:
                 json.dump(behs, f)
-            tp = os.path.join(work, "gen-%s.ndjson" % prof)
+            tp = os.path.join(work, "gen-%s-%d.ndjson" % (prof, gk))
             p = vf.run_harness(binary, ["replay", "-in", bf, "-out", tp])
             if p.returncode != 0:
                 raise vf.Infra("h-peer replay failed: %s" % p.stderr[-2000:])
